@@ -1096,6 +1096,10 @@ func (interp *Interpreter) cfg(root *node, sc *scope, importPath, pkgName string
 				// To avoid a copy in frame, if the result is to be returned, store it directly
 				// at the frame location reserved for output arguments.
 				n.findex = childPos(n)
+				if rt := sc.def.typ.ret[n.findex]; isComparisonAction(n.action) && isInterface(rt) {
+					// The boolean result of a comparison is stored as an interface value.
+					n.typ = rt
+				}
 			default:
 				// Allocate a new location in frame, and store the result here.
 				n.findex = sc.add(n.typ)
@@ -2444,16 +2448,18 @@ func (interp *Interpreter) cfg(root *node, sc *scope, importPath, pkgName string
 			case n.rval.IsValid():
 				n.gen = nop
 				n.findex = notInFrame
-			case n.anc.kind == assignStmt && n.anc.action == aAssign && n.anc.nright == 1:
+			case n.anc.kind == assignStmt && n.anc.action == aAssign && n.anc.nright == 1 && !isInterface(n.anc.child[childPos(n)-n.anc.nright].typ):
 				dest := n.anc.child[childPos(n)-n.anc.nright]
 				n.typ = dest.typ
 				n.findex = dest.findex
 				n.level = dest.level
-			case n.anc.kind == returnStmt:
+			case n.anc.kind == returnStmt && !isInterface(sc.def.typ.ret[childPos(n)]):
 				pos := childPos(n)
 				n.typ = sc.def.typ.ret[pos]
 				n.findex = pos
 			default:
+				// The result has its own location: the operators do not store into
+				// a destination of interface type.
 				n.findex = sc.add(n.typ)
 			}
 
